@@ -9,6 +9,7 @@ from weakref import ReferenceType, ref
 from nix_manipulator.exceptions import ResolutionError
 from nix_manipulator.expressions.expression import NixExpression
 from nix_manipulator.expressions.scope import Scope, ScopeLayer
+from nix_manipulator._verif_hooks import emit as _verif_emit
 
 
 @dataclass(slots=True)
@@ -33,8 +34,10 @@ def _store_context(expr: NixExpression, context: ResolutionContext) -> None:
         stored_ref, _ = existing
         if stored_ref is reference:
             _CONTEXTS.pop(expr_id, None)
+            _verif_emit("ctx_callback", addr=expr_id)
 
     _CONTEXTS[expr_id] = (ref(expr, _clear), context)
+    _verif_emit("ctx_store", addr=expr_id, obj=expr, ctx=id(context))
 
 
 def _get_context(expr: NixExpression) -> ResolutionContext | None:
@@ -45,8 +48,10 @@ def _get_context(expr: NixExpression) -> ResolutionContext | None:
         return None
     stored_ref, context = entry
     if stored_ref() is expr:
+        _verif_emit("ctx_hit", addr=id(expr), obj=expr, ctx=id(context))
         return context
     _CONTEXTS.pop(id(expr), None)
+    _verif_emit("ctx_stale", addr=id(expr))
     return None
 
 
@@ -287,6 +292,7 @@ def clear_resolution_context(expr: NixExpression) -> None:
     """Remove any stored scope chain for *expr* (internal helper)."""
 
     _CONTEXTS.pop(id(expr), None)
+    _verif_emit("ctx_clear", addr=id(expr))
 
 
 def get_resolution_context(expr: NixExpression) -> ResolutionContext | None:
